@@ -28,7 +28,7 @@ def limit_offset_of_sql(sql):
 def run(ctx):
     br = vlib.standard_proof_obligations(ctx, ["PrqlModel.Props.C03"], [],
         required_theorems=["take_positions", "takes_rangeOfRanges", "takes_compose", "normalize_ok", "limit_offset_ok",
-                           "filter_keeps_order", "map_keeps_order", "last_sort_wins", "sort_sorted", "take_sublist", "filter_sublist"])
+                           "filter_keeps_order", "map_keeps_order", "last_sort_wins", "sort_sorted", "take_sublist", "filter_sublist", "filter_keeps_order_rel", "last_sort_wins_rel", "sort_sorted_rel", "take_compose_rel", "take_positions_rel", "derive_keeps_order_rel", "sort_stable_rel"])
     ctx.rule = ("(i) every chain of 1-3 takes with bounds from {open, 1..4} (exhaustive): LIMIT/OFFSET of the real SQL vs the Lean mirror; "
                 "(ii) generated pipelines biased towards sort/take and order-retaining or -resetting transforms x random databases: "
                 "SQLite row sequence vs reference semantics; non-trivial = compared as a sequence with >= 2 rows, or a take chain whose "
